@@ -17,7 +17,7 @@ META = {
              "the monotonicity clause; distinct by structural hash; non-trivial = >= 2 measured qubits interleaved and (nesting >= 2 or product of counts >= 4)"),
     "assumptions": ["numbering oracle is the statement itself (dense 0..N-1 along the listing); Stim's text/flattened form is trusted for the export-order clause"],
     "floors": {
-        "quick": {"flattened_export_order_checked": 2500, "nested_unrolled_monotonic_circuits": 600, "measurements_observed": 30000, "tag_filters_checked": 15000, "export_order_checked": 3000, "monotonic_circuits": 300, "library_circuits": 40},
+        "quick": {"schedules_read_under_other_durations_first": 2000, "flattened_export_order_checked": 2500, "nested_unrolled_monotonic_circuits": 600, "measurements_observed": 30000, "tag_filters_checked": 15000, "export_order_checked": 3000, "monotonic_circuits": 300, "library_circuits": 40},
         "thorough": {"measurements_observed": 300000, "tag_filters_checked": 150000, "export_order_checked": 30000, "monotonic_circuits": 3000},
     },
 }
@@ -160,6 +160,14 @@ def check_program(prog: Dict[str, Any], acc: Acc, flags=None):
         modified = built.top.circuit.apply_modifiers()
         measures = check_indices(modified, acc, case)
         check_export_order(modified, measures, acc, case)
+        # the schedule is looked at once under other gate durations (the library's temporary override) before the time clause is evaluated
+        # under the program's own settings: what is read afterwards is what the clause is about (seeded change C07-r14: no memo clear on exit)
+        if measures and len(modified.operations) <= 400:
+            from qce_circuit.structure.registry_duration import temporary_override_get_registry_at, GlobalRegistryKey
+            other = {GlobalRegistryKey[k]: float(v) * f for (k, v), f in zip(sorted(ctx.S.glob.items()), (0.5, 2.0, 0.25, 3.0))}
+            with temporary_override_get_registry_at(other):
+                snap.raw_times(modified.operations)
+            acc.count("schedules_read_under_other_durations_first")
         st = bp.stats(prog["circuit"])
         if st["explicit"] == 0 and st["blocks"] == 0:
             check_monotonic(modified, measures, acc, case, require_overlap_free=True)
